@@ -204,7 +204,8 @@ func (db *SpecDB) add(key string, pc *PkgContracts) {
 	} else {
 		db.pkgs[key] = pc
 	}
-	for name, fc := range pc.Funcs {
+	for name := range pc.Funcs {
+		fc := db.pkgs[key].Funcs[name] // the merged contract when several blocks exist
 		full := name
 		if key != "" && !fc.IsIface && !fc.IsExtern {
 			full = key + "." + name
